@@ -12,6 +12,8 @@ mod c35;
 mod c36;
 mod mgen;
 mod minrec;
+mod schemagen;
+mod txseeds;
 
 fn main() {
     let ctx = Ctx::from_args();
